@@ -41,6 +41,7 @@ static void h_run_case(hcase_t* c) {
     rt_name(f, sizeof *f, 1000 + t, sizeof *f);
   }
   rt_reg((void*)&sem.counter, sizeof sem.counter, 300, sizeof sem.counter);
+  rt_reg_rest(&sem, sizeof sem, 3900);   /* search mode only: fields the model does not know (here also the waiter queue's head/tail) */
   t1_run(n, prog, c->sched, c->nsched, dmax);
   rt_print_trace();
 }
